@@ -479,11 +479,21 @@ def run_random(concepts, case, spec):
                           lambda: src.take(so_, sp_), lambda: src.take(so_ or None, sp_ or None, reorder=True)][how])
                 if how >= 6:
                     COL.count('history_forks_from_sub_tables')
+                # several derivatives of the same source taken at the same moment (snapshots before a risky
+                # edit, one per reader): all of them stay tracked, whoever is edited next
+                if rng.random() < .4:
+                    for _ in range(rng.randint(1, 2)):
+                        g = call(rng.choice([src.copy, src.copy, src.take, lambda: D(*src)]))
+                        if g is not RAISED and isinstance(g, D):
+                            with core.monitor_code():
+                                model_of(g)
+                            forks.append(g)
+                            COL.count('history_forks_siblings_of_one_source')
                 if f is not RAISED and isinstance(f, D):
                     with core.monitor_code():
                         model_of(f)             # adopted at birth: later edits of its source must not reach it
                     forks.append(f)
-                    if len(forks) > 4:
+                    while len(forks) > 5:
                         forks.pop(0)
                     COL.count('history_forks')
                     history.append(('fork', how))
